@@ -98,19 +98,22 @@ class Path:
 
 
 class Engine:
-    def __init__(self, feas_timeout_ms=2000, max_paths=4000):
+    def __init__(self, feas_timeout_ms=300, max_paths=4000):
         self.queue = []
         self.feas_timeout_ms = feas_timeout_ms
         self.max_paths = max_paths
         self.stats = {"paths": 0, "feasibility_checks": 0, "feasibility_s": 0.0}
 
-    def explore(self, run):
-        """run(path) executes one path (may raise PathEnd).  Returns the list of completed Path objects."""
+    def explore(self, run, nested=False):
+        """run(path) executes one path (may raise PathEnd).  Returns the list of completed Path objects.
+        Top-level explorations restart the fresh-name counter for every path (a replayed prefix then
+        regenerates identical names); nested ones (comprehension bodies) never reset it."""
         self.queue = [[]]
         done = []
         while self.queue:
             script = self.queue.pop()
-            V.reset_fresh()
+            if not nested:
+                V.reset_fresh()
             p = Path(self, script)
             try:
                 run(p)
